@@ -26,7 +26,7 @@ SIDES = {"KDir": ("", ">"), "KUnd": ("", ""), "KDirSub": ("<", ">"), "TwoEnded":
 CLS = {"KVertex": Vertex, "KVertexSub": H.VSub, "KUniverse": Universe, "KDir": DirectedEdge, "KDirSub": H.DSub,
        "KUnd": UnDirectedEdge, "TwoEnded": TwoEndedLink, "Base": BaseObject}
 CONF_KEYS = [["KVertex", "KDir", "KUnd"], ["KVertex", "KDir", "KUnd", "KVertexSub", "KDirSub", "KUniverse"], ["TwoEnded", "Base"],
-             ["KVertex", "KUnd"]]
+             ["KVertex", "KUnd"], ["KVertex", "KDir", "KUnd"]]
 
 
 def make_options(ci):
@@ -90,7 +90,16 @@ def run_rquery(w, q, fault=None):
         return Q.outcome_of(go)
     if t == "PUML":
         def go():
-            src = plantuml.render_to_plantuml_src(uni, make_options(q[2]))
+            table = make_options(q[2])
+            if len(q) > 4 and q[3] == "grow_from":
+                # ONE options table used for two renderings: first holding the entries of a smaller configuration only, then
+                # grown in place by the missing entries - the second rendering must be that of the full configuration
+                table = make_options(q[4])
+                plantuml.render_to_plantuml_src(uni, table)
+                for k_, v_ in make_options(q[2]).items():
+                    if k_ not in table:
+                        table[k_] = v_
+            src = plantuml.render_to_plantuml_src(uni, table)
             return ["doc", None] if src is None else ["doc", parse_puml(w, src, q[2]), src.count("@startuml"), src.count("@enduml"),
                                                       src.strip().startswith("@startuml") and src.strip().endswith("@enduml")]
         return Q.outcome_of(go)
